@@ -1,6 +1,165 @@
 import TabulaModel.Util
-namespace Tabula.C09H
+import TabulaModel.Model.Layout
+/-!
+Line protocol of C09 (see harness/c09/c09.go).
 
-def handle (_op : String) (_args : List String) : String := "bad-op"
+* number: `n` or `n/d`; fragment: `id,x,y,w,h,fs,hextext`; fragment list: fragments joined by
+  `|` (`-` = empty); group list: fragment lists joined by `;` (`-` = no group, `~` = empty group);
+  gaps: `l:r;l:r` (`-` = none); box: `x,y,w,h`; box list joined by `|` (`-` = empty).
+* answers: id lists `3,1,2` (`-` = empty); partitions = id lists joined by `|` (`-` = no group,
+  `~` = empty group); texts as hex.
+
+Ops: `c09.dedupe F`, `c09.bands F`, `c09.lines tol F`, `c09.blines minw G`, `c09.linetext F`,
+`c09.sep gaps F`, `c09.create gaps F`, `c09.validate G`, `c09.cols gaps F`, `c09.seg n bits`,
+`c09.bgroup G`, `c09.bmerge G/…` , `c09.blocks G`, `c09.etree H L P`, `c09.asm F`,
+`c09.preserve F`, `c09.bycol S`, `c09.joinpara S`.
+-/
+namespace Tabula.C09H
+open Tabula Tabula.Layout
+
+def toStr (b : Bytes) : Str := b.map (·.toNat)
+def ofStr (s : Str) : Bytes := s.map UInt8.ofNat
+def hexS (s : Str) : String := hex (ofStr s)
+def unhexS (s : String) : Option Str := (unhex s).map toStr
+
+def parseRat (s : String) : Option Rat :=
+  match s.splitOn "/" with
+  | [n] => n.toInt?.map fun i => (i : Rat)
+  | [n, d] => do
+    let n ← n.toInt?
+    let d ← d.toNat?
+    if d = 0 then none else pure ((n : Rat) / (d : Rat))
+  | _ => none
+
+def parseFrag (s : String) : Option Frag :=
+  match s.splitOn "," with
+  | [i, x, y, w, h, fs, t] => do
+    pure { id := ← i.toNat?, x := ← parseRat x, y := ← parseRat y, w := ← parseRat w,
+           h := ← parseRat h, fs := ← parseRat fs, text := ← unhexS t }
+  | _ => none
+
+def parseFrags (s : String) : Option (List Frag) :=
+  if s == "-" then some [] else (s.splitOn "|").mapM parseFrag
+
+def parseGroups (s : String) : Option (List (List Frag)) :=
+  if s == "-" then some []
+  else (s.splitOn ";").mapM fun g => if g == "~" then some [] else parseFrags g
+
+def parseGaps (s : String) : Option (List Gap) :=
+  if s == "-" then some []
+  else (s.splitOn ";").mapM fun g =>
+    match g.splitOn ":" with
+    | [l, r] => do pure { left := ← parseRat l, right := ← parseRat r }
+    | _ => none
+
+def parseBox (s : String) : Option Box :=
+  match s.splitOn "," with
+  | [x, y, w, h] => do pure { x := ← parseRat x, y := ← parseRat y, w := ← parseRat w, h := ← parseRat h }
+  | _ => none
+
+def parseBoxes (s : String) : Option (List Box) :=
+  if s == "-" then some [] else (s.splitOn "|").mapM parseBox
+
+def idList (ids : List Nat) : String :=
+  if ids.isEmpty then "-" else ",".intercalate (ids.map toString)
+
+def sortNat (l : List Nat) : List Nat := l.mergeSort (fun a b => a ≤ b)
+
+def groupStr (sorted : Bool) (g : List Frag) : String :=
+  if g.isEmpty then "~" else
+  let ids := g.map (·.id)
+  ",".intercalate ((if sorted then sortNat ids else ids).map toString)
+
+def partStr (sorted : Bool) (gs : List (List Frag)) : String :=
+  if gs.isEmpty then "-" else "|".intercalate (gs.map (groupStr sorted))
+
+def minCW : Rat := 50
+def spanThr : Rat := 7 / 20
+
+def neverPreserve (_ : List Frag) : Bool := false
+
+def blocksStr (bs : List Block) : String :=
+  let gs := bs.map fun b => sortNat (b.frags.map (·.id))
+  let ls := bs.map fun b => sortNat (b.lines.flatten.map (·.id))
+  if gs != ls then "model-inconsistent"
+  else
+    let gs := gs.mergeSort (fun a b => a.head?.getD 0 ≤ b.head?.getD 0)
+    if gs.isEmpty then "-" else "|".intercalate (gs.map idList)
+
+def parseTexts (s : String) : Option (List (List Str)) :=
+  if s == "-" then some []
+  else (s.splitOn ";").mapM fun g =>
+    if g == "~" then some [] else (g.splitOn "|").mapM unhexS
+
+/-- `hextext:code` lines; code 1 = "\n", 2 = "\n\n" before the line -/
+def parseSection (s : String) : Option (List (Str × Nat)) :=
+  if s == "~" then some []
+  else (s.splitOn "|").mapM fun l =>
+    match l.splitOn ":" with
+    | [t, c] => do pure (← unhexS t, ← c.toNat?)
+    | _ => none
+
+def handle (op : String) (args : List String) : String :=
+  match op, args with
+  | "c09.dedupe", [f] => match parseFrags f with
+    | some fs => idList ((dedupe fs).map (·.id)) | none => "bad-op"
+  | "c09.bands", [f] => match parseFrags f with
+    | some fs => partStr false (bands fs) | none => "bad-op"
+  | "c09.lines", [t, f] => match parseRat t, parseFrags f with
+    | some tol, some fs => partStr true (groupIntoLines tol neverPreserve fs) | _, _ => "bad-op"
+  | "c09.blines", [m, g] => match parseRat m, parseGroups g with
+    | some minW, some gs =>
+      idList ((gs.zipIdx.filter fun gi => keepLine minW gi.1).map (·.2)) | _, _ => "bad-op"
+  | "c09.linetext", [f] => match parseFrags f with
+    | some fs => hexS (lineText fs) | none => "bad-op"
+  | "c09.sep", [g, f] => match parseGaps g, parseFrags f with
+    | some gaps, some fs =>
+      let r := if gaps.isEmpty then (fs, []) else separate (isSpanGo gaps spanThr) keepSpanGo fs
+      s!"R={groupStr true r.1} S={groupStr true r.2}"
+    | _, _ => "bad-op"
+  | "c09.create", [g, f] => match parseGaps g, parseFrags f with
+    | some gaps, some fs => partStr false (createColumns gaps fs) | _, _ => "bad-op"
+  | "c09.validate", [g] => match parseGroups g with
+    | some cols => partStr false (validateColumns minCW cols) | none => "bad-op"
+  | "c09.cols", [g, f] => match parseGaps g, parseFrags f with
+    | some gaps, some fs =>
+      let c := detectColumns gaps minCW (isSpanGo gaps spanThr) keepSpanGo fs
+      s!"C={partStr true c.columns} S={groupStr true c.spanning}"
+    | _, _ => "bad-op"
+  | "c09.seg", [n, bits] => match n.toNat? with
+    | some n =>
+      let bs := bits.toList.map (· == '1')
+      let idx := (List.range n).zip (bs ++ List.replicate n false)
+      let segs := segment (fun _ (a : Nat × Bool) _ => a.2) idx []
+      if segs.isEmpty then "-" else "|".intercalate (segs.map fun s => idList (s.map (·.1)))
+    | none => "bad-op"
+  | "c09.bgroup", [g] => match parseGroups g with
+    | some ls =>
+      let bs := groupBlocks blockBreakGo ls
+      if bs.isEmpty then "-" else "|".intercalate (bs.map fun b => groupStr true b.frags)
+    | none => "bad-op"
+  | "c09.blocks", [g] => match parseGroups g with
+    | some ls => blocksStr (detectBlocks blockBreakGo blocksOverlapGo 10 5 ls)
+    | none => "bad-op"
+  | "c09.etree", [h, l, p] => match parseBoxes h, parseBoxes l, parseBoxes p with
+    | some hs, some ls, some ps =>
+      let mk := fun (b : Box) => ({ box := b, ids := [] } : Elem)
+      idList ((ps.zipIdx.filter fun pi => consumed bboxOverlaps (hs.map mk) (ls.map mk) (mk pi.1)).map (·.2))
+    | _, _, _ => "bad-op"
+  | "c09.asm", [f] => match parseFrags f with
+    | some fs => hexS (assembleText fs) | none => "bad-op"
+  | "c09.preserve", [f] => match parseFrags f with
+    | some fs => hexS (nonspace (preserveLayout (fun _ _ => (1, 1)) fs)) | none => "bad-op"
+  | "c09.bycol", [s] =>
+    match (if s == "-" then some [] else (s.splitOn ";").mapM parseSection) with
+    | some secs =>
+      let sep := fun (si li : Nat) => match (secs.getD si []).getD li ([], 1) with
+        | (_, 2) => [10, 10]
+        | _ => [10]
+      hexS (byColumnText sep (secs.map fun s => s.map (·.1)))
+    | none => "bad-op"
+  | "c09.joinpara", [s] => match parseTexts s with
+    | some ps => hexS (joinParagraphsText ps) | none => "bad-op"
+  | _, _ => "bad-op"
 
 end Tabula.C09H
